@@ -569,6 +569,9 @@ class Ops:
                 self.world.lazy_instantiate(it, c, vals.ks(it.refine(x)))
             if it.mode != 'spec':
                 self.outcome(it, [(z3.Not(_hashable(x)), 'TypeError'), (_hashable(x), None)], 'in key')
+            if not nonstring_keys(it, cont):
+                # A4: the keys of this dict are strings, so nothing else is ever a member (True in {'a': ..} is False)
+                return z3.And(V.is_StrV(x), z3.Select(V.dhas(c), V.s(x)))
             it.assume_axiom(vals.key_axiom(x))
             return z3.And(vals.is_key(x), z3.Select(V.dhas(c), vals.ks(x)))
         if k == 3:
